@@ -6,15 +6,61 @@ props = [json.loads(l) for l in open(os.path.join(ROOT, "properties.jsonl"))]
 NOTE_COMMON = ("Trusted: Coq 8.16.1 kernel (vm_compute, no native_compute); tools/rs2v.py; extraction with ExtrOcamlBasic only; "
                "the OCaml driver and Rust harness glue; faithfulness of the hand-written model parts beyond what the correspondence suites execute; "
                "my transcription of the H.263 / Sorenson / BT.601 texts. Axioms per theorem are in the evidence file (Print Assumptions).")
+AX = (" Theorems that mention the reconstruction (binary32 IDCT model built on Flocq) depend on the four standard-library axioms behind Coq's Reals "
+      "(ClassicalDedekindReals.sig_forall_dec, sig_not_dec, FunctionalExtensionality.functional_extensionality_dep, Classical_Prop.classic); all others are axiom-free.")
 CLAIMS = {
- "C16": dict(
-  technique="Coq proof (totality/shape of the deblock model for all sizes and strengths; table = J.2) + regenerated-table bridge + exhaustive model/implementation differential",
-  text="Theorems (axiom-free): the model of deblock() returns Ok with an output of the input's length for every width>=1, every height>=0 (0 and 1 included) and every strength; the strength table equals the transcribed Table J.2 and lies in 1..12 for quantizers 1..31. The table is regenerated from the source each run and bridged by reflexivity; the pass structure is hand-modelled and tied to the crate by running both (checked build: overflow checks + debug assertions) on every width 1..40 x height 0..40 x strength 1..12, comparing result class and length.",
-  design="5/C16"),
+ "C01": dict(
+  technique="Coq proof (arithmetic safety of the integer kernels; loop bound; plane-shape invariant) + full executable Coq model of the decoder run against the crate on seeded corrupt/valid/random histories; a crash of the crate is itself the failing input",
+  text="The whole decoder (bit reader, header, macroblock and block parsers, RLE/dequantisation, motion-vector prediction, motion compensation, binary32 IDCT, state) is modelled in Gallina with explicit Panic/OutOfFuel results and tied to the crate by running both on 3 000 (quick) / 60 000 (thorough) histories per run (valid I/P/D pictures, nine kinds of corruption, random bytes behind a start code, explicit size fields incl. zero, size-changing predicted pictures, UMV vector accumulation; all four option sets; prior histories) comparing result class, header, plane hashes and reader position after every call, under a watchdog. Theorems proved for all inputs: quantizer stays in 1..31, dequantised coefficients in -2048..2047, vector sums saturate in i16 (C01_kernels_safe); the macroblock loop never exceeds the picture's macroblock count (C15); every reconstructed picture has planes of the signalled size (C13). The full totality theorem (no Panic / OutOfFuel for every byte string and state) is NOT yet proved: that part of the claim rests on the differential. Inputs whose declared area exceeds 2^24 samples are excluded on both sides (the property's own exclusion)." ,
+  design="5/C01"),
+ "C02": dict(
+  technique="Coq proof (dequantisation formula, zig-zag = anti-diagonal walk, INTRADC levels) + bit-exact model/implementation differential on generated intra pictures + independent reference reconstruction as search oracle + transcribed VLC tables cross-checked against the source trees",
+  text="Theorems: dequant = sign(L)(Q(2|L|+1) - [Q even]) saturated, for every Q and L; the source's de-zig-zag table equals the anti-diagonal walk; INTRADC codes (0,128 rejected; 8c; 255 -> 1024). The composition over whole pictures (parser round trip, placement, crop, IDCT) is not yet a theorem: it is tied by decoding 600 (20 000 thorough) generated intra pictures (sizes 1..80, Sorenson v0/v1/standard, q 1..31, every escape form, stuffing, PEI) in model and crate byte for byte, and by comparing the crate with an independent double-precision reference reconstruction (+-1 only within the float error of a rounding boundary) on a quarter of them and on every mismatch. My transcription of Tables 7/8/13/14/16 is compared with the source trees in both directions on every run.",
+  design="5/C02"),
+ "C03": dict(
+  technique="Coq proof (vector wrap, chroma rounding table for every sum, median, no-reference rejection) + bit-exact differential on I+P/D histories + independent reference reconstruction as search oracle",
+  text="Theorems: predictor + differential reduced modulo 64 half samples into -32..31 for every pair; average_sum_of_mvs = sum/8 with the sixteenth-position table for every integer sum; median_of is a median; motion compensation without a reference succeeds only if no macroblock is predicted. Whole predicted pictures (median candidates with border rules, 1- and 4-vector macroblocks, bilinear half-sample prediction with edge clamp, not-coded and truncated pictures) are tied by decoding 500 (20 000) I+P/D histories in model and crate byte for byte and comparing the crate with an independent reference reconstruction on a fifth of them and on every mismatch.",
+  design="5/C03"),
+ "C04": dict(
+  technique="Coq proof: refinement of the map-keyed decoder state to a two-register abstract machine for every history (induction over operations, key invariant) + exhaustive short histories against the abstract machine",
+  text="Theorems: one successful decode call makes the new picture the most recent one, reconstructs it from the *reference* register, and makes it the reference unless it is disposable, in which case the reference is untouched -- for arbitrary temporal references (key invariant: reference keys stay below the disposable key flag; header TRs are proved < 1024); cleanup_buffers changes neither register; by induction every history from a new decoder abstracts to the two-register machine (C04_history_refines). Tie: all histories of length <= 3 (<= 4 thorough) over {I,P,D} x TR {0,1,255} + garbage + cleanup and 1 500 (20 000) random longer ones, with position-coded flat pictures so that the picture used for prediction shows in the pixels, compared call by call with the abstract machine and with the model.",
+  design="5/C04"),
+ "C05": dict(
+  technique="Coq statements on the model (errors carry no state; direct) + self-consistency differential of the crate (state and position after every kind of failure, twin decoder, two-piece delivery at every byte split) + model comparison",
+  text="In the model a decode call is a function of (state, unread bits) and Err carries neither, which renders with_transaction's rollback and the fact that all state writes follow the last fallible step; the three theorems are therefore direct. That the code behaves like this function is checked by execution: for 120 (1 500) base histories and every kind of failing input (no start code, truncated header, truncated block data, reserved format, forbidden INTRADC, invalid CBPY, invalid MVD, zero escape level, bad marker, unimplemented RPRP, prediction without reference) the crate's pictures after the failure equal those before, the repeated call fails identically, and valid data afterwards decodes as on a twin decoder that never saw the failure; 24 (300) pictures are delivered in two pieces at every byte split through a growable source.",
+  design="5/C05"),
+ "C06": dict(
+  technique="Coq proof (TR range of every parsed header) + hand-modelled header parser tied by exhaustive-per-field differential through the public parser entry point against the encoded field values",
+  text="The header parser (Sorenson; PTYPE; PLUSPTYPE with OPPTYPE/MPPTYPE, CPM/PSBI, CPFMT/EPAR, CPCFC/ETR, UUI, SSS, ELNUM/RLNUM, RPSMF, TRPI/TRP, BCI, PQUANT, TRB/DBQUANT, PEI) is modelled by hand. Tie and oracle: ~9 000 (quick) headers produced by my encoder of H.263 5.1 from field values -- exhaustive per field family (all PTYPE flag/format/type combinations, all 2^10 OPPTYPE mode-bit patterns, every MPPTYPE type, all 512 widths with dense heights and all 512 heights, every PAR, CPCFC, TRB, RPSMF, Sorenson field) plus cross-field cases, marker-bit rejections and UFEP=0 inheritance -- parsed by the crate and compared with the canonical rendering of the encoded values and with the position after the header; the model must agree with the crate. The round-trip theorem decode(encode h) = h is not yet proved; proved: every parsed TR lies in 0..1023.",
+  design="5/C06"),
+ "C07": dict(
+  technique="Coq proof by linear integer arithmetic over symbolic bytes (no enumeration) + regenerated constants bridged + sweep of the pixel kernel over a lattice / all 2^24 triples",
+  text="Theorems (axiom-free): the kernel with the source's constants equals the 16.16 fixed-point BT.601 formula with round-to-nearest constants, +0.5 bias, shift and clamp for all integers; each constant is the nearest 16.16 value of its rational coefficient; every channel is strictly within 1 of the exact rational formula (clamped); alpha = 255; monotonicity of R, G, B in the components they depend on; i32 lanes cannot wrap. Constants, offsets, shift and channel structure are regenerated from bt601.rs and bridged each run; the real kernel is swept through yuv420_to_rgba on a 52^3 lattice + all cube faces + dense slabs (quick) or all 2^24 triples (thorough) against tables from the extracted spec.",
+  design="5/C07"),
+ "C08": dict(
+  technique="Coq proof by induction on rows and 4-pixel groups with case analysis of the remainder path, for every width and height + layout differential on a dense size grid",
+  text="Theorem (axiom-free): for every w, h >= 1 and planes of the documented sizes the model of yuv420_to_rgba (row loop, whole 4-pixel groups incl. zip truncation, remainder-columns path with its staging arrays) returns exactly the row-major image whose pixel (x, y) converts Y[x+yw] with Cb, Cr at [x/2 + (y/2) ceil(w/2)]; it has 4wh bytes with pixel (x,y) at offset 4(x+yw); the empty picture gives an empty output. Tie: every width 1..70 x height 1..12 (1..260 x 1..40 thorough) through the crate, compared with the layout assembled from the crate's own 1x1 conversions (independent of the colour formula).",
+  design="5/C08"),
  "C09": dict(
   technique="Coq proof (scalar and vector-lane kernels = Annex J for all bytes and strengths by lia; length preservation) + exhaustive kernel sweep against tables from the extracted spec + image differential over a dense size grid",
   text="Theorems (axiom-free): for all byte patterns (A,B,C,D) and every strength the code's scalar kernel and each lane of the repaired vector kernel equal the Annex J formula with truncating divisions, results are bytes (so the unclipped A/D casts are exact); the pre-repair flooring lane kernel is refuted by a witness; output length = input length for every size. The pass structure (4-row groups, 8-column vector chunks + scalar remainder, 8-row vector groups + scalar remainder rows) is hand-modelled; it is tied to the crate byte-for-byte on all widths 1..40 x heights 0..40 with adversarial content, and both real kernels are swept against the spec on the (A,D)-lattice x all (B,C) x 12 strengths (quick) or all 2^32 x 12 patterns (thorough). The pointwise Annex J image (executable spec) is the oracle when model and crate disagree.",
   design="5/C09"),
+ "C16": dict(
+  technique="Coq proof (totality/shape of the deblock model for all sizes and strengths; table = J.2) + regenerated-table bridge + exhaustive model/implementation differential",
+  text="Theorems (axiom-free): the model of deblock() returns Ok with an output of the input's length for every width>=1, every height>=0 (0 and 1 included) and every strength; the strength table equals the transcribed Table J.2 and lies in 1..12 for quantizers 1..31. The table is regenerated from the source each run and bridged by reflexivity; the pass structure is hand-modelled and tied to the crate by running both (checked build: overflow checks + debug assertions) on every width 1..40 x height 0..40 x strength 1..12, comparing result class and length.",
+  design="5/C16"),
+ "C13": dict(
+  technique="Coq proof: plane-shape invariant of every reconstructed picture (induction over the reconstruction loops) composed with the deblock totality and RGBA layout theorems + pipeline differential over all sizes 1..40 x 1..40",
+  text="Theorems: every successful reconstruction -- for all bytes, options and reference pictures -- yields width, height >= 1, a luma plane of h rows of w samples, chroma planes of ceil(h/2) rows of ceil(w/2) and reports ceil(w/2) as chroma row length (C13_new_picture_planes); on any such picture with quantizer 1..31 the pipeline deblock x3 + yuv420_to_rgba returns Ok with exactly 4wh bytes (C13_pipeline_total, from C16 and C08). Tie: decode -> deblock -> convert on every size 1..40 x 1..40 in model and crate.",
+  design="5/C13"),
+ "C15": dict(
+  technique="Coq proof (macroblock-count bound of the loop; start-code window) + stream differential: N pictures in one reader versus one reader per picture",
+  text="Theorems: the macroblock loop never holds more than mb_per_line*mb_height macroblocks whatever follows in the reader; the start-code probe of the next call skips at most realignment+1 <= 8 bits. The full statement is tied by execution: 300 (10 000) sequences of 2-5 pictures of mixed types and sizes, each padded with < 8 zero bits, decoded from one shared reader and from separate readers in Sorenson v0/v1 and standard mode, compared picture by picture; 0..7 padding bits after a lone picture never change it.",
+  design="5/C15"),
+ "C17": dict(
+  technique="Coq proof (interleaving independence over instance-indexed states; shared-state inventory regenerated from source and bridged) + threaded execution of replicated decoders; PARTIAL (see text)",
+  text="PARTIAL. Proved: in the model the per-instance result of any interleaving equals the result of the instance's own subsequence run alone (induction over the schedule); the inventory of process-wide state regenerated from every non-test source file of the three crates is exactly three immutable lazy_static option masks (no static mut / static / thread_local / unsafe / interior mutability / clock, env or random source; the picture map is never iterated). Evidence by execution, not proof: 400 (2 000) histories, each on two instances, stepped in seeded random interleavings with yields on 2/8/16 threads (1..16, ten schedules, thorough) and again in a second process, every trace compared with the same history run alone and with the model. Data-race freedom rests on safe Rust.",
+  design="5/C17"),
 }
 checks = []
 for pid in sorted(CLAIMS):
@@ -24,7 +70,7 @@ for pid in sorted(CLAIMS):
                    "evidence_file": "/verif/evidence/%s.json" % pid,
                    "replay_cmd_template": "./check %s --replay {path}" % pid, "engine": "coq-h263v",
                    "level_claimed": {"category": "proof", "text": c["text"], "design_ref": c["design"]},
-                   "level_note": c.get("note", NOTE_COMMON), "technique": c["technique"]})
+                   "level_note": c.get("note", NOTE_COMMON + AX), "technique": c["technique"]})
 na = [{"property_id": p["id"],
        "reason": "not yet claimed: the Coq model, theorems and correspondence suite for this property are still being built (DESIGN.md section 10); machine-checked proof applies to it"}
       for p in props if p["id"] not in CLAIMS]
